@@ -2,3 +2,6 @@ import Nervus.Model.Bytes
 import Nervus.Model.OKey
 import Nervus.Spec.OrderedValue
 import Nervus.Props.C27
+import Nervus.Model.BTree
+import Nervus.Spec.Multimap
+import Nervus.Props.C26
